@@ -4,6 +4,7 @@ import Model.Common.ECProto
 import Model.C16.Musig2
 import Model.C16.Dleq
 import Model.C16.SilentPayments
+import Model.C16.Pedersen
 import Generated.Interactive
 open Btc Btc.Py Btc.C16
 
@@ -228,6 +229,18 @@ def silent : List String → Option String
     let labels ← listOf? label? labels
     pure (if !(vp S) || pks.any (fun P => !(vp P)) then "err value"
       else rend rFound (scanTransactionOutputs O Hh b S ops pks outs labels))
+  | ["pedersen.commit", r, v, hx, hy] => do
+    let Hp ← point2? hx hy
+    let r ← parseInt? r
+    let v ← parseInt? v
+    pure (if !(vp Hp) then "err value" else
+      rend (fun (P : EC.Point) => s!"{P.1} {P.2}") (pedersenCommit O Hp r v))
+  | ["pedersen.verify", r, v, cx, cy, hx, hy] => do
+    let Hp ← point2? hx hy
+    let C ← point2? cx cy
+    let r ← parseInt? r
+    let v ← parseInt? v
+    pure (if !(vp Hp) then "err value" else "ok " ++ rBool (pedersenVerify O Hp r v C))
   | ["sp.prv_key_from_tweak", b, t] => do
     pure (rend toString (prvKeyFromTweak O (← parseInt? b) (← parseInt? t)))
   | _ => none
@@ -249,7 +262,7 @@ def handle (toks : List String) : String :=
           if t.startsWith "musig." || t.startsWith "bip340." then (C16Drv.musig toks).getD "bad-op"
           else if t.startsWith "dh." || t.startsWith "kdf." || t.startsWith "dleq." then
             (C16Drv.twoParty toks).getD "bad-op"
-          else if t.startsWith "sp." then (C16Drv.silent toks).getD "bad-op"
+          else if t.startsWith "sp." || t.startsWith "pedersen." then (C16Drv.silent toks).getD "bad-op"
           else "bad-op"
         | [] => "bad-op"
 
